@@ -8,7 +8,9 @@ HERE = os.path.dirname(os.path.abspath(__file__))
 
 
 def _run(ctx, roots, only=None):
-    rows, problems = panics.judge(ctx.P, roots, HERE)
+    rows, problems, review = panics.judge(ctx.P, roots, HERE)
+    if review:
+        ctx.open_obligations = review
     for (f, kind, bb, key, verdict) in rows:
         if only is not None and not only(f):
             continue
@@ -53,7 +55,7 @@ def c16_r3(ctx):
     """No panic-capable site in local code (derives included) reachable from the two
     state-reading paths."""
     roots = ["history::History::<SystemType>::read_rule_history", "current::CurrentFileStates::<SystemType>::from_file"]
-    rows, problems = panics.judge(ctx.P, roots, HERE)
+    rows, problems, review = panics.judge(ctx.P, roots, HERE)
     ctx.inst("functions reachable from the state readers: %d" % len(ctx.P.reachable_fns(roots)))
     for (f, kind, bb, key, verdict) in rows:
         ctx.inst("%s -- %s" % (key, verdict), f.where(bb))
@@ -74,7 +76,9 @@ def c19_r4(ctx):
     from r_codec import _endpoints
     cls = _endpoints(ctx)
     roots = [c.id for c in cls]
-    rows, problems = panics.judge(ctx.P, roots, HERE)
+    rows, problems, review = panics.judge(ctx.P, roots, HERE)
+    if review:
+        ctx.open_obligations = review
     for (f, kind, bb, key, verdict) in rows:
         ctx.inst("%s -- %s" % (key, verdict), f.where(bb))
         if verdict.startswith(("discharged", "reviewed")):
